@@ -238,6 +238,21 @@ CHECKS = {
              "nested highlight groups); each style is sent through AnsiWriter over a Vec under catch_unwind.",
         note=TLC_BASE + "; unix only; colours per level not compared",
         design="7/C18"),
+    "C16": dict(
+        category="model_checking",
+        technique="TLA+ spec (TimeTrigger.tla: proleptic Gregorian calendar, schedule function, trigger machine) "
+                  "model-checked by TLC on a dense grid and on arrival histories; replayed per time zone in child "
+                  "processes with the guarded clock override",
+        text="TimeTrigger.tla defines days-from-civil and its inverse, weekday, ordinal and ISO week on (day, second) "
+             "pairs and NextTime for the seven units with and without modulation; TLC checks GStrict, GAligned, "
+             "GRoundTrip on the grid and StrictlyFuture, OncePerBoundary, RescheduleFromNow on all histories of three "
+             "record arrivals. The grid is replayed through the guarded schedule wrapper in 3 fixed-offset and 4-5 "
+             "DST zones (both readings of ambiguous local times; under catch_unwind): exact local result wherever the "
+             "UTC offset is the same at both ends, strictly-future otherwise. Histories drive a real rolling "
+             "appender with the time trigger under the clock override: when it rolls, that the firing record starts "
+             "the fresh file, and the scheduled instant after every step are compared.",
+        note=TLC_BASE + "; n >= 1; zones from the system tzdata via TZ; histories only in fixed-offset zones",
+        design="7/C16"),
 }
 
 NOT_YET = "check not built yet in this round (planned, see DESIGN.md section 7)"
